@@ -1,5 +1,6 @@
 import FitModel.DecProg
 import FitModel.DecoderApi
+import FitModel.Raw
 /-!
 Definitions of the links between the decoder models (core Lean only: this module is also linked into the model driver,
 which cross-checks the links on generated streams — `Driver/Links.lean`).
@@ -154,5 +155,21 @@ def facFdOK (fac : Factory) : Bool :=
 /-- every base type the factory hands out is a valid one (otherwise `UnmarshalValue` fails with an error (D) has no
 counterpart for: its tie runs the standard factory) -/
 def facBtOK (fac : Factory) : Bool := fac.all fun e => _root_.Fit.Value.btValid e.info.bt
+
+/-! ## the independent framing spec → the raw decoder -/
+
+section RawLayout
+open Fit.Raw Fit.Gen.Reader
+
+def kindOfFlag (f : Nat) : FitFormat.Kind :=
+  if f = rawFlagFileHeader then .header else if f = rawFlagMesgDef then .definition
+  else if f = rawFlagMesgData then .data else .crc
+
+/-- the callback invocations as (kind, offset in the stream, length), the first at offset `off` -/
+def layout : Nat → List Seg → List (FitFormat.Kind × Nat × Nat)
+  | _, [] => []
+  | off, s :: ss => (kindOfFlag s.flag, off, s.bytes.length) :: layout (off + s.bytes.length) ss
+
+end RawLayout
 
 end Fit.Link
